@@ -364,7 +364,31 @@ def r2_ln_offset(ctx, rule):
     # writer: ln_lookup[i] on line i+1
     wf = ctx.fn(OFO)
     wtxt = TU(wf)
-    w_ok = 'for length, count in enumerate(omen_trainer.ln_lookup):' in wtxt and "file.write(str(count[0]) + '\\n')" in wtxt
+    # one line per element of ln_lookup, in list order, holding the element's level (its first component): line k <-> length k.
+    # Whatever counter the loop keeps for its progress message is irrelevant.
+    w_ok = False
+    tp_ = params(wf)[0]
+    for lp_ in [n for n in walk_local(wf) if isinstance(n, ast.For)]:
+        it_ = lp_.iter
+        elem = None
+        if U(it_) == '%s.ln_lookup' % tp_:
+            elem = lp_.target
+        elif isinstance(it_, ast.Call) and call_name(it_) == 'enumerate' and it_.args and U(it_.args[0]) == '%s.ln_lookup' % tp_ \
+                and isinstance(lp_.target, ast.Tuple) and len(lp_.target.elts) == 2:
+            elem = lp_.target.elts[1]
+        if elem is None:
+            continue
+        if isinstance(elem, ast.Name):
+            level_txt = {'%s[0]' % elem.id}
+        elif isinstance(elem, ast.Tuple) and elem.elts and isinstance(elem.elts[0], ast.Name):
+            level_txt = {elem.elts[0].id}
+        else:
+            continue
+        writes = [c for c in calls_in(lp_) if isinstance(c.func, ast.Attribute) and c.func.attr == 'write']
+        plain = not any(isinstance(x, (ast.If, ast.Continue, ast.Break, ast.Try)) for b in lp_.body for x in ast.walk(b))
+        if len(writes) == 1 and plain and len(writes[0].args) == 1 and U(writes[0].args[0]) in {"str(%s) + '\\n'" % t for t in level_txt} | \
+                {"f'{%s}\\n'" % t for t in level_txt}:
+            w_ok = True
     # trainer index len-1 (checked in R1 through the map), scorer pre-seeds one element and indexes len
     sf = ctx.fn(SCI)
     pre = [s for s in walk_stmts(sf.body) if isinstance(s, ast.Assign) and U(s.targets[0]) == 'self.ln' and isinstance(s.value, ast.List)]
